@@ -7,8 +7,14 @@
      - (Tier A) tables that pass the validator belong to an unambiguous grammar: two
        derivations with the same yield are equal — so an ambiguous grammar can never come with
        valid tables (C04_valid_tables_mean_unambiguous).
+     - (Tier B) every grammar the generator accepts is unambiguous, and the parser emitted for
+       it is a correct recogniser (C04_accepted_grammars_are_unambiguous; C01.v, C02.v);
+     - (Tier B) the table handed to the emitter holds exactly the demands of the items of the
+       machine, so a rejection is a conflict between two such demands and an acceptance means
+       there was none (C04_table_is_exactly_the_demands).
    NOT proved: C04_exact (generate = Ok  <->  the LALR(1) automaton of the grammar, as defined
-   from canonical LR(1) item sets merged by core, has no conflict): needs builder exactness.
+   from canonical LR(1) item sets merged by core, has no conflict): the lookahead sets of the
+   machine are proved closed and justified, not proved LEAST.
    Decided per grammar by the check against a brute-force canonical-LR(1)-then-merge reference. *)
 From Coq Require Import List.
 From Kiki Require Import Base.Ord Base.Chars Data LR.Driver LR.Grammar LR.Validate LR.ValidateProofs
@@ -24,5 +30,21 @@ Theorem C04_valid_tables_mean_unambiguous :
                 yield t1 = yield t2 -> t1 = t2.
 Proof. exact @validated_unambiguous. Qed.
 
+From Kiki Require Import Build.FillProofs Build.TableSpec Emit.Parser Pipeline PipelineProofs.
+
+Theorem C04_accepted_grammars_are_unambiguous :
+  forall {P} (kind : P -> nat) ho digest src out text pt,
+    perm_hash_order ho -> generate_full ho digest src = Ok (out, text) ->
+    ptable_of (go_file out) (go_table out) = Some pt ->
+    forall t1 t2, wf kind pt (PN (pt_start_nt pt)) t1 -> wf kind pt (PN (pt_start_nt pt)) t2 ->
+                  yield t1 = yield t2 -> t1 = t2.
+Proof. exact @accepted_grammar_unambiguous. Qed.
+
+Theorem C04_table_is_exactly_the_demands : forall m f ho t,
+  perm_ho ho -> machine_to_table ho m f = Ok t -> table_spec m f t.
+Proof. exact machine_to_table_spec. Qed.
+
 Print Assumptions C04_error_means_conflict.
 Print Assumptions C04_valid_tables_mean_unambiguous.
+Print Assumptions C04_accepted_grammars_are_unambiguous.
+Print Assumptions C04_table_is_exactly_the_demands.
